@@ -374,6 +374,14 @@ class ManyOf(Choices):
         pg_typing.ensure_value_spec(
             value_spec, pg_typing.List(pg_typing.Any()), path))
     if list_spec:
+      # The list this placeholder decodes to has `num_choices` elements.
+      if (self.num_choices < list_spec.min_size
+          or (list_spec.max_size is not None
+              and self.num_choices > list_spec.max_size)):
+        raise ValueError(
+            utils.message_on_path(
+                f'The number of choices ({self.num_choices}) does not meet '
+                f'the size bounds of {list_spec!r}.', path))
       for i, c in enumerate(self.candidates):
         list_spec.element.value.apply(
             c,
